@@ -1120,6 +1120,12 @@ func (u *Unit) mapNext(fx *FX, st *State, m VMap, x *ssa.Next, ok T, k, v Val) {
 				if vv, isV := v.(VStr); isV {
 					fx.assume(ok, eq(vv.T, app(SSeq, "qval", g, kv.T)))
 				}
+				// range visits every key exactly once: the produced key was not visited before, and when the
+				// iterator is exhausted every key has been visited
+				if li := fx.loops[x.Block()]; li != nil && li.seenHdr.S != "" {
+					fx.assume(ok, not(sel(li.seenHdr, kv.T)))
+					fx.line("(assert (=> (not " + ok.S + ") (forall ((j!r BSeq)) (! (=> (qhas " + g.S + " j!r) (select " + li.seenHdr.S + " j!r)) :pattern ((qhas " + g.S + " j!r)) :pattern ((select " + li.seenHdr.S + " j!r))))))")
+				}
 			}
 		}
 		return
